@@ -34,6 +34,9 @@ CHECKS = {
  'C14': dict(cat='exploration', tech='differential data-image comparison of literals vs clang --target/gcc objects and an independent Python encoder; exhaustive single-byte constants; invalid-input catalogue',
              text='String literals and character constants built from random Unicode scalars of every UTF-8 length and plane boundary, all escape forms followed by digit-like characters, every prefix and prefix mixture in concatenations are emitted as data and compared with clang --target (three targets), gcc and a Python encoder; all single-byte character constants of every prefix are enumerated; invalid UTF-8 of every kind and out-of-range escapes must be rejected or (narrow strings) passed through unaltered, never re-encoded, never a crash.',
              note='exhaustive=true for the single-byte constants only; where the encoder and the references disagree (generator bookkeeping) the case is skipped and listed.', ref='4/C14'),
+ 'C13': dict(cat='exploration', tech='online comparison of the hooked token stream (H1 token-per-line dump) with a reference lexer written from C11 6.4; exhaustive short punctuator strings and keyword perturbations',
+             text='All 406,900 strings of length <= 4 over the punctuator alphabet, every keyword spelling with all one-character perturbations and prefixes, literal prefixes x quotes, pp-number forms x neighbours, and random token soups with comments, form feeds and backslash-newline at arbitrary positions are lexed by the hooked compiler and compared token by token (class, spelling, preceded-by-space) with vf.reflex; without the hook, `int <word> = 1;` must be accepted exactly for non-keywords.',
+             note='exhaustive=true for the enumerated parts. vf.reflex encodes C11 6.4 plus the documented deviations (no di/trigraphs, `::`, C23/GNU keyword spellings).', ref='4/C13'),
  'C03': dict(cat='exploration', tech='online validator (re-implemented QBE parse/typecheck/SSA rules) over every accepted output; strace write-fault injection',
              text='Every module printed with exit status 0 (suite, corpus, generated, odd-shaped and mutated inputs, cproc\'s own sources; three targets) is parsed and checked by an independent IL validator; output faults are injected at the k-th write.',
              note='Trusted: vf.ilcheck (silent on the 159 stored .qbe files and the self-compiled IL); data sizes vs C objects are judged by C06/C07.', ref='4/C03'),
@@ -68,6 +71,6 @@ def main():
     }
     with open(os.path.join(HERE, 'MANIFEST.json'), 'w') as f:
         json.dump(m, f, indent=1)
-HOOK_COMMITS = []
+HOOK_COMMITS = ['f1525b7']
 if __name__ == '__main__':
     main()
